@@ -73,6 +73,10 @@ claim("C11", "other", "def-use / backward-slice and dominance rules on the MIR o
       "Decides the structural clauses of 'include = paste': the nested parse context shares the includer's segments, macros, messages and symbol context (Rc clones of handle structs, never fresh objects) at both hops; directories added by .includepath inside an included file reach the includer's set at every hop (sharing or write-back after the nested parse); a file that cannot be opened is an error whose message is built from the looked-up path; .exit yields a mode that only ends the current line loop and .include leaves the mode alone; caller directories, the file's own directory and a (joined-when-relative) .includepath argument flow into the searched set and the path as written is tried first. Level 'other': which file wins among several, CWD behaviour, symlinks and I/O errors are runtime configuration, not decided.",
       "Trusted: rustc MIR and callee resolution.", engine="E0+E1+E3")
 
+claim("C14", "other", "structural rules on the PEG grammar AST (own rust-peg reader cross-checked against the compiled parser's MIR), lower-case typestate on keyword lookups, resolved callee of the line splitter",
+      "Every meaningless respelling named by C14 needs a tolerant spot in the grammar or lexer; each spot is decided as a necessary condition: both blank kinds in space(), space() around every infix token, inside parentheses/calls, around the comma, between label/mnemonic/operands/comment; the three comment forms after every content-bearing line form and on their own; both letter cases in the register and hex-digit classes; lower-casing before the mnemonic, directive, register and function-name lookups; str::lines for LF/CRLF; radix forms under C05. Level 'other': arbitrary combinations of respellings (PEG ordered-choice interactions) are not decided.",
+      "Out of scope (avrasm itself is strict there): blank after a prefix operator, around the '+' of Y+q, before a label, upper-case 0X/0B and directive names.", engine="E0+E2+E4")
+
 ENGINES = [
     {"name": "E0 fact driver", "path": "driver/", "serves_properties": sorted(P), "kind_free_text": "rustc_private driver (RUSTC_WORKSPACE_WRAPPER) dumping callee-resolved MIR, ADT/static/impl tables of /repo's two crates as JSON"},
     {"name": "E1 abstract interpreter", "path": "analysis/absint.py", "serves_properties": ["C01", "C02", "C03", "C04", "C05", "C06", "C08", "C12", "C13"], "kind_free_text": "path-sensitive abstract interpretation of MIR: named unknowns, value sets, bit provenance, linear forms; no solver, no execution of /repo"},
